@@ -16,6 +16,12 @@ def opt (j : Json) : Option Json := if j.isNull then none else some j
 def optStr (j : Json) : Option String := (opt j).map str
 def optInt (j : Json) : Option Int := (opt j).bind fun x => (str x).toInt?
 
+partial def tyTree (j : Json) : Ty :=
+  let k := str (fld j "k")
+  let kind : TyKind := if k == "path" then .path else if k == "ref" then .ref else if k == "array" then .array
+                       else if k == "group" then .group else .other
+  .mk kind (str (fld j "t")) ((opt (fld j "c")).map tyTree)
+
 def lit (j : Json) : LitV :=
   let k := str (fld j "k")
   if k == "bool" then .bool (bool (fld j "b"))
@@ -64,7 +70,8 @@ def traitMeta (j : Json) : TraitMeta :=
     else if f == "list" then
       .list ((opt (fld j "plain")).map params)
             ((opt (fld j "unsafe")).map fun u => (bool (fld u "has"), params (fld u "params")))
-            ((opt (fld j "typed")).map fun t => (str (fld t "ty"), params (fld t "params")))
+            ((opt (fld j "typed")).map fun t =>
+              ((match opt (fld t "ty_tree") with | some tt => (tyTree tt).hashTy | none => str (fld t "ty")), params (fld t "params")))
     else .path
   { ident := optStr (fld j "ident"), pathStr := str (fld j "path"), raw := str (fld j "raw"), form := mf }
 
@@ -81,9 +88,14 @@ partial def tyShape (j : Json) : TyShape :=
   else if k == "array" then .arrayOf (tyShape (fld j "elem"))
   else .other
 
+/-- The type views of a field (`hashTy`, `isRef`, `derefTy`, `shape`) are computed by the model of educe's type helpers
+    (`Ty.hashTy`, `Ty.isRef`, `Ty.dereference`, `Ty.shape`) from the type's tree; the serializer only prints the nodes. -/
 def field (j : Json) : Field :=
-  { name := optStr (fld j "name"), ty := str (fld j "ty"), hashTy := str (fld j "hash_ty"), isRef := bool (fld j "is_ref"),
-    derefTy := str (fld j "deref_ty"), shape := tyShape (fld j "tyshape"), attrs := (arr (fld j "attrs")).map attr }
+  let base : Field := { name := optStr (fld j "name"), attrs := (arr (fld j "attrs")).map attr }
+  match opt (fld j "ty_tree") with
+  | some t => base.withTy (tyTree t)
+  | none => { base with ty := str (fld j "ty"), hashTy := str (fld j "hash_ty"), isRef := bool (fld j "is_ref"),
+                        derefTy := str (fld j "deref_ty"), shape := tyShape (fld j "tyshape") }
 
 def shape (s : String) : Shape := if s == "tuple" then .tuple else if s == "named" then .named else .unit
 
